@@ -62,7 +62,8 @@ View == <<setup, outD, outC, logD, logC, rest, hist>>
 NoRun == [exit |-> "none", stdout |-> "none"]
 StateP == [setup |-> setup', outD |-> outD', outC |-> outC', logD |-> logD', logC |-> logC', rest |-> rest', last |-> last']
 
-Init == /\ setup \in Accepted
+\* without the Edit action a version can only be explored as an initial one
+Init == /\ setup \in (IF "edit" \in EnvActions THEN Accepted ELSE Versions)
         /\ outD = "absent" /\ outC = "absent" /\ logD = "absent" /\ logC = "absent"
         /\ rest = "clean" /\ last = NoRun
         /\ hist = IF RecordHist THEN <<[act |-> [a |-> "init"], to |-> State]>> ELSE << >>
